@@ -15,8 +15,8 @@ UNIT = {
                  ('new_all_default', 'forall|c: int| r.view_at(c) == default')]},
   'Widths::ensure_cid': {'kind': 'fn', 'file': F, 'container': IMPL, 'name': 'ensure_cid', 'props': ['C19', 'C14'],
      'ensures': [('ensure_cid_frame', 'final(self).values@ == old(self).values@ && final(self).default == old(self).default && final(self).first_char == old(self).first_char')],
-     'rewrites': [{'rule': 'R7', 'find': 'self.values.reserve(offset.saturating_sub(self.values.capacity()));',
-                   'replace': 'hoist_reserve_to(&mut self.values, offset);'}]},
+     'rewrites': [{'rule': 'R7', 'regex': r'self\.values\.reserve\((.*?)\.saturating_sub\(self\.values\.capacity\(\)\)\);',
+                   'replace': r'let __o = \1; hoist_reserve_to(&mut self.values, __o);'}]},
   'Widths::_set': {'kind': 'fn', 'file': F, 'container': IMPL, 'name': '_set', 'props': ['C19', 'C14'],
      'requires': ['old(self).wf()', 'cid < usize::MAX'],
      'ensures': [('set_wf', 'final(self).wf()'),
@@ -24,10 +24,12 @@ UNIT = {
                  ('set_view', 'forall|c: int| final(self).view_at(c) == if c == cid { width } else { old(self).view_at(c) }')],
      'rewrites': [
         {'rule': 'R2', 'find': 'use std::iter::repeat;', 'replace': ''},
-        {'rule': 'R7', 'find': 'self.values.splice(0 .. 0, repeat(self.default).take(self.first_char - cid));',
-         'replace': 'let __d = self.default; let __n = self.first_char - cid; hoist_splice_front(&mut self.values, __d, __n);'},
-        {'rule': 'R7', 'find': 'self.values.extend(repeat(self.default).take(cid - self.first_char - self.values.len()));',
-         'replace': 'let __d = self.default; let __n = cid - self.first_char - self.values.len(); hoist_extend_repeat(&mut self.values, __d, __n);'},
+        # R7: only the call shape `v.splice(0 .. 0, repeat(D).take(N))` / `v.extend(repeat(D).take(N))` is hoisted;
+        # the argument expressions D and N stay verbatim and are checked (overflow, value) by Verus
+        {'rule': 'R7', 'regex': r'self\.values\.splice\(\s*0\s*\.\.\s*0\s*,\s*repeat\((.*?)\)\.take\((.*?)\)\);',
+         'replace': r'let __d = \1; let __n = \2; hoist_splice_front(&mut self.values, __d, __n);'},
+        {'rule': 'R7', 'regex': r'self\.values\.extend\(\s*repeat\((.*?)\)\.take\((.*?)\)\);',
+         'replace': r'let __d = \1; let __n = \2; hoist_extend_repeat(&mut self.values, __d, __n);'},
      ]},
   'Widths::set': {'kind': 'fn', 'file': F, 'container': IMPL, 'name': 'set', 'props': ['C19'],
      'requires': ['old(self).wf()', 'cid < usize::MAX'],
@@ -35,5 +37,13 @@ UNIT = {
                  ('set_default_kept', 'final(self).default == old(self).default'),
                  ('set_view', 'forall|c: int| final(self).view_at(c) == if c == cid { width } else { old(self).view_at(c) }')],
      'rewrites': [{'rule': 'R4', 'find': 'debug_assert_eq!(self.get(cid), width);', 'replace': ''}]},
+ },
+ 'kani': {
+   'modules': [{'file': F, 'code': 'kani_widths.rs'}],
+   'harnesses': [
+     {'name': 'widths_set_get_bounded', 'fn': 'Widths::_set', 'file': F, 'props': ['C19'], 'kind': 'bounded',
+      'bound': 'up to 3 successive set() calls with codes < 6 on an empty table, then every code < 8 queried', 'tier': 'thorough', 'covers': True,
+      'contract': 'after set(c1,w1)..set(ck,wk) on new(d): get(c) == w_j for the last j with c_j == c, else d (second opinion + counterexample source for the Verus contract)'},
+   ],
  },
 }
